@@ -21,6 +21,7 @@ func init() {
 			{Name: "inputs/token-soup", Count: core.FixedCount(20000, 600000), BlockIsViolation: true, Run: func(c *core.Ctx, idx int) { cdcnmon.RunC12Random(c, "tokens") }},
 			{Name: "inputs/mutated-documents", Count: core.FixedCount(30000, 800000), BlockIsViolation: true, Run: func(c *core.Ctx, idx int) { cdcnmon.RunC12Random(c, "mutated") }},
 			{Name: "inputs/kind-context-mismatch", Count: core.FixedCount(cdcnmon.C12MismatchCases(), cdcnmon.C12MismatchCases()*8), BlockIsViolation: true, Run: cdcnmon.RunC12Mismatch},
+			{Name: "inputs/reused-notation", Count: core.FixedCount(8000, 150000), BlockIsViolation: true, Run: func(c *core.Ctx, idx int) { cdcnmon.RunReusedNotation(c, "C12") }},
 			{Name: "inputs/injected-character", Count: core.FixedCount(10000, 300000), BlockIsViolation: true, Run: func(c *core.Ctx, idx int) { cdcnmon.RunC12Injection(c) }},
 		},
 		Repro: map[string]func() (bool, string){
